@@ -72,3 +72,25 @@ Definition iso_mis_y (cs : list iso_case) : list N :=
 Definition iso_mis_g (cs : list iso_case) : list N :=
   flat_map (fun c : iso_case => let '(id, ops, _, ref, _) := c in
     if list_eqb robs_eqb (map (obs_of live) (g_houts (t_fix live) live_gtable [] ops)) ref then [] else [id]) cs.
+
+(** shape of a replacement type as reflect sees it at run time, against the regenerated table *)
+Definition shape_case := (N * str * list rfield)%type.
+Definition rfield_eqb (a b : rfield) : bool :=
+  str_eqb (f_name a) (f_name b) && Bool.eqb (f_emb a) (f_emb b) && Bool.eqb (f_exp a) (f_exp b) && str_eqb (f_typ a) (f_typ b).
+Definition shape_mis_y (cs : list shape_case) : list N :=
+  flat_map (fun c : shape_case => let '(id, ty, fs) := c in
+    match assoc ty sb_restricted_types with
+    | Some fs' => if list_eqb rfield_eqb fs fs' then [] else [id]
+    | None => [id]
+    end) cs.
+Definition shape_mis_g (cs : list shape_case) : list N := [].
+
+(** routes from a replacement value to an exit-like method: type, route, method, outcome observed in a
+    child process, did the host survive according to the reference (always) *)
+Definition route_case := (N * str * route * str * outcome * bool)%type.
+Definition route_mis_y (cs : list route_case) : list N :=
+  flat_map (fun c : route_case => let '(id, ty, r, m, impl, _) := c in
+    if outcome_eqb (y_route live ty (or_nil (assoc ty sb_restricted_types)) r m) impl then [] else [id]) cs.
+Definition route_mis_g (cs : list route_case) : list N :=
+  flat_map (fun c : route_case => let '(id, _, _, _, _, ref) := c in
+    if Bool.eqb g_route_confined ref then [] else [id]) cs.
